@@ -343,3 +343,10 @@ Fixpoint outcomes (fuel : nat) (c : cfgv) (todo : list (list cop)) (res : list (
                  outcomes fuel' c' (set_nth i r todo) (set_nth i l' res)
              end) (List.seq 0 (List.length todo))
   end.
+
+(* ------------------------------------------------------------------------------------------ *)
+(* Part E: guard table kinds emitted by the translator *)
+Inductive gkind :=
+| GG (g : guard)     (* mutex- or Once-guarded *)
+| GBarrier           (* handed to goroutines: distinct element per goroutine + WaitGroup barrier *)
+| GGlobal.           (* an unguarded package-level variable that some function writes *)
